@@ -902,6 +902,12 @@ impl Exec {
     fn retag_failed_ctor_events(&mut self, _ev0: usize) {}
 
     fn after_arena_gone(&mut self, ai: usize, what: &str, prop: &'static str) {
+        self.after_arena_gone_allowing(ai, what, prop, 0)
+    }
+
+    /// `leaked`: number of values whose destructor unwound during teardown (they keep their block and
+    /// stay counted).
+    fn after_arena_gone_allowing(&mut self, ai: usize, what: &str, prop: &'static str, leaked: usize) {
         let a8 = ai as u8;
         let objs: Vec<MObj> = self.model.objs.iter().filter(|o| o.arena == a8).cloned().collect();
         for o in objs {
@@ -917,7 +923,7 @@ impl Exec {
         }
         if let Some(m) = self.metrics[ai].as_ref() {
             let c = m.total_gc_count();
-            if c != 0 {
+            if c != leaked {
                 self.violate("C04", "count-after-drop", format!("{what}: total_gc_count() reads {c} after the arena is gone"));
             }
         }
@@ -933,21 +939,47 @@ impl Exec {
         }
         let others = self.snapshot_others(ai);
         let ev0 = obs::events_len();
-        let what = format!("drop(arena {ai}) in phase {ph0}");
+        let fuse = self.pending_drop_fuse.take();
+        let what = match fuse {
+            Some(k) => format!("drop(arena {ai}) in phase {ph0} with destructor panic #{k}"),
+            None => format!("drop(arena {ai}) in phase {ph0}"),
+        };
         obs::set_quiet_panics(true);
+        if let Some(k) = fuse {
+            obs::arm_drop_fuse(k);
+        }
         let res = {
             let _c = CtxScope::enter(Ctx::ArenaDrop);
             catch_unwind(AssertUnwindSafe(move || drop(arena)))
         };
+        let fired = obs::disarm_drop_fuse();
         obs::set_quiet_panics(false);
-        if let Err(p) = res {
-            self.violate("C04", "arena-drop-panicked", format!("{what}: {}", obs::panic_message(&*p)));
+        match (&res, fired) {
+            (Err(p), Some(_)) if obs::panic_message(&**p) == obs::DROP_PANIC => self.cov.arena_drop_faults += 1,
+            (Ok(()), Some(id)) => self.violate("C04", "drop-panic-swallowed", format!("{what}: the destructor of object {id} panicked but dropping the arena returned normally")),
+            (Err(p), _) => self.violate("C04", "arena-drop-panicked", format!("{what}: {}", obs::panic_message(&**p))),
+            (Ok(()), None) => {}
         }
         self.bk[ai].protected.clear();
-            self.bk[ai].resurrected.clear();
+        self.bk[ai].resurrected.clear();
         let _ = self.process_events_bounded(ev0, obs::events_len(), Some(ai as u8), None, &what);
         self.model.arenas[ai].alive = false;
-        self.after_arena_gone(ai, &what, "C04");
+        // the one value whose destructor unwound keeps its block (the teardown resumes behind it); every
+        // other value is still destructed exactly once and released
+        let mut leaked = 0;
+        if let Some(id) = fired {
+            obs::untracked(|| {
+                if let Some(o) = self.model.objs.iter_mut().find(|o| o.id == id && o.arena == ai as u8) {
+                    if o.status == Status::Destructed {
+                        o.status = Status::Released;
+                        o.frees += 1;
+                        leaked = 1;
+                        self.leaked_by_fault += 1;
+                    }
+                }
+            });
+        }
+        self.after_arena_gone_allowing(ai, &what, "C04", leaked);
         self.check_others(&others, ai, &what);
     }
 
@@ -1319,6 +1351,11 @@ impl Exec {
                     obs::arm_trace_fuse(*k as u32 % 24 + 1);
                 }
             }
+            Step::ArmDropPanic { k } => {
+                if !self.opts.c09 {
+                    self.pending_drop_fuse = Some(*k as u32 % 24 + 1);
+                }
+            }
             Step::NewArena { preset, fallible, outcome, ops } => self.new_arena_step(*preset, *fallible, *outcome, ops),
             Step::DropArena { arena } => {
                 if let Some(ai) = self.arena_ix(*arena) {
@@ -1371,7 +1408,8 @@ impl Exec {
             }
         }
         let outstanding = obs::watched_outstanding();
-        if outstanding != 0 && !self.fatal {
+        // a value whose destructor unwound during arena teardown keeps its block
+        if outstanding > self.leaked_by_fault && !self.fatal {
             self.violate("C04", "blocks-outstanding", format!("{outstanding} Gc blocks were never returned to the allocator"));
         }
         obs::untracked(|| self.metrics.clear());
